@@ -158,6 +158,16 @@ theorem findIn_spec (cs : List Named) (name : Nat) :
       simp at this
       exact ⟨c, List.mem_of_find?_eq_some h, this, ht⟩
 
+/-- lookup by interface (`GetComponent[T]`) resolves locally first … -/
+theorem lookupT_local_first (cs : List Typed) (parents : List (List Typed)) (t tag : Nat)
+    (h : findTypeIn cs t = some tag) : lookupT (cs :: parents) t = some tag := by
+  simp [lookupT, h]
+
+/-- … and then through the parents -/
+theorem lookupT_parent_fallback (cs : List Typed) (parents : List (List Typed)) (t : Nat)
+    (h : findTypeIn cs t = none) : lookupT (cs :: parents) t = lookupT parents t := by
+  simp [lookupT, h, getComponentWalksParents]
+
 /-! ## non-vacuity -/
 
 example :
@@ -176,5 +186,8 @@ example : close [⟨0, true, false, false, false⟩, ⟨1, false, false, false, 
 example : lookup [[⟨1, 10⟩], [⟨1, 20⟩, ⟨2, 21⟩]] 1 = some 10 ∧
           lookup [[⟨1, 10⟩], [⟨1, 20⟩, ⟨2, 21⟩]] 2 = some 21 ∧
           lookup [[⟨1, 10⟩], [⟨1, 20⟩, ⟨2, 21⟩]] 3 = none := by decide
+
+example : lookupT [[⟨[1], 10⟩], [⟨[1, 2], 20⟩]] 1 = some 10 ∧ lookupT [[⟨[1], 10⟩], [⟨[1, 2], 20⟩]] 2 = some 20 ∧
+          lookupT [[⟨[1], 10⟩], [⟨[1, 2], 20⟩]] 3 = none := by decide
 
 end AnySync.App
